@@ -233,8 +233,9 @@ class StepExtract:
         # entries: A = new_p[p:=1,q:=0], B = new_p[p:=0,q:=1], ...
         A, B = col(np_, (1, 0, 0, 0)), col(np_, (0, 0, 1, 0))
         C, D = col(nq_, (1, 0, 0, 0)), col(nq_, (0, 0, 1, 0))
-        run.oblige("linear.p", loops.scalar_eq(np_, A * p + B * q), kind="post", view="value", assuming=rng)
-        run.oblige("linear.q", loops.scalar_eq(nq_, C * p + D * q), kind="post", view="value", assuming=rng)
+        LP = {"C01", "C04", "C05", "C07"}
+        run.oblige("linear.p", loops.scalar_eq(np_, A * p + B * q), kind="post", view="value", assuming=rng, props=LP)
+        run.oblige("linear.q", loops.scalar_eq(nq_, C * p + D * q), kind="post", view="value", assuming=rng, props=LP)
         self.sink.update({"A": A, "B": B, "C": C, "D": D, "i": ctl.i, "c": c, "pc": list(run.pc), "rng": rng})
         order_obligations(run, inp, self.sink)
 
@@ -282,6 +283,9 @@ def order_obligations(run, inp, sk):
                               kind="lemma", props=props)
     run.oblige_custom("step-reads", lambda spec=spec: stepalg.check_reads(spec), kind="frame",
                       props={"C01", "C05", "C12"})
+    for which in ("mirror-x", "mirror-y", "swap", "length", "speed"):
+        run.oblige_custom("symmetry." + which, (lambda spec=spec, which=which: stepalg.check_symmetry(spec, which)),
+                          kind="rel", props={"C07"})
 
 
 def generate_step(ctx, props):
@@ -311,4 +315,4 @@ def generate_step(ctx, props):
 
 def generate(ctx):  # noqa: F811
     generate_bookkeeping(ctx, {"C10", "C01", "C03", "C04", "C05"})
-    generate_step(ctx, {"C01", "C04", "C05", "C12"})
+    generate_step(ctx, {"C01", "C04", "C05", "C07", "C12"})
